@@ -364,6 +364,7 @@ where
                     context.response.set_rcode(Rcode::SERVFAIL);
                     return;
                 }
+                let opt_raw_ttl = peek_rr.raw_ttl();
                 let opt_rr = match peek_rr.parse() {
                     Ok(opt_rr) => opt_rr,
                     Err(_) => {
@@ -382,7 +383,7 @@ where
                     context.response.set_limit(negotiated_limit as usize);
                 }
 
-                if let Some(rcode) = validate_opt(&opt_rr) {
+                if let Some(rcode) = validate_opt(&opt_rr, opt_raw_ttl) {
                     context
                         .response
                         .set_extended_rcode(rcode)
@@ -592,7 +593,11 @@ impl<'c, 'b, C> Context<'c, 'b, C> {
 
 /// Validates an EDNS OPT record. If it's not valid, then the proper
 /// error RCODE for the response is returned.
-fn validate_opt(opt_rr: &ReadRr) -> Option<ExtendedRcode> {
+///
+/// `raw_ttl` is the OPT record's TTL field as received. (The `ttl`
+/// member of `opt_rr` cannot be used, since [`Ttl`](crate::rr::Ttl)
+/// reads values with the most significant bit set as zero.)
+fn validate_opt(opt_rr: &ReadRr, raw_ttl: u32) -> Option<ExtendedRcode> {
     // The formatting of the OPT RDATA was already validated when we
     // parsed it, and since we currently don't support any EDNS options,
     // we ignore any sent to us (per RFC 6891 § 6.1.2). What remains is
@@ -600,7 +605,7 @@ fn validate_opt(opt_rr: &ReadRr) -> Option<ExtendedRcode> {
     if !opt_rr.owner.is_root() {
         Some(ExtendedRcode::FORMERR)
     } else {
-        let edns_version = (u32::from(opt_rr.ttl) >> 16) as u8;
+        let edns_version = (raw_ttl >> 16) as u8;
         if edns_version != 0 {
             Some(ExtendedRcode::BADVERSBADSIG)
         } else {
